@@ -13,8 +13,17 @@
 #include <stdatomic.h>
 
 #define M_THREADS_ASSERT(pool, ret) \
-    M_RET_ASSERT(pool->shutdown == SHUTDOWN_NO, -EPERM); \
-    M_RET_ASSERT(pool->init_state & INITED_STARTED, -EPERM);  
+    M_RET_ASSERT(pool->init_state & INITED_STARTED, -EPERM);
+
+/*
+ * To be used with the pool locked: the pool may be shutting down
+ * while one of its own tasks tries to use it.
+ */
+#define M_SHUTDOWN_ASSERT(pool) \
+    if (pool->shutdown != SHUTDOWN_NO) { \
+        pthread_mutex_unlock(&pool->lock); \
+        return -EPERM; \
+    }
 
 typedef enum {
     INITED_THREADS  = 0x01,     // threads are allocated
@@ -230,6 +239,7 @@ _public_ int m_thpool_add(m_thpool_t *pool, m_thpool_task task, void *arg) {
         return ret;
     }
     VERIF_POINT(VP_THPOOL_ADD_LOCKED, pool);
+    M_SHUTDOWN_ASSERT(pool);
 
     /*
      * Lazy thread algorithm:
@@ -270,6 +280,7 @@ _public_ ssize_t m_thpool_length(m_thpool_t *pool) {
     if (ret) {
         return ret;
     }
+    M_SHUTDOWN_ASSERT(pool);
     
     ssize_t len = m_queue_len(pool->tasks);
     
@@ -289,6 +300,7 @@ _public_ ssize_t m_thpool_clear(m_thpool_t *pool) {
     if (ret) {
         return ret;
     }
+    M_SHUTDOWN_ASSERT(pool);
     
     ret = m_queue_clear(pool->tasks);
     
